@@ -12,7 +12,8 @@ EXPLANATION = (
     "through StorageData; (R05d) the memory-mapped variant mirrors every mutation into both the file and the memory copy.")
 DECIDED = ["R06a AnyStorage delegation table (10 methods x 3 variants, resolved callees)",
            "R06b storage-generic database: concrete storage types confined to storage/* and DbAny::try_new_*",
-           "R05d memory-mapped mirror (shared with C05)"]
+           "R05d memory-mapped mirror (shared with C05)",
+           "R23b cursor discipline of the file-only variant (shared with C23)"]
 UNDECIDED = ["agreement of the three primitive StorageData impls on write-past-end / short-read error behaviour "
              "(arithmetic and error-vs-panic differences; the panic side is C07)",
              "equality of query results (needs execution)"]
